@@ -1592,9 +1592,7 @@ func valuePath(ap accessPath) bool {
 // root variable is fresh and every pointer hop on the way was assigned a fresh
 // allocation here (q.root = &element{...}; q.root.next = ...).
 func (la *LockAnalysis) freshPath(f *Func, ap accessPath) bool {
-	if !la.isFresh(f, ap.Root, 0) {
-		return false
-	}
+	fresh := la.isFresh(f, ap.Root, 0)
 	info := f.Info()
 	for i, fld := range ap.Fields {
 		if _, ok := fld.Type().Underlying().(*types.Struct); ok {
@@ -1614,9 +1612,7 @@ func (la *LockAnalysis) freshPath(f *Func, ap accessPath) bool {
 			}
 			return true
 		})
-		if !assigned {
-			return false
-		}
+		fresh = assigned
 	}
-	return true
+	return fresh
 }
